@@ -510,3 +510,20 @@ def checkpoint_padding(repo, col, R):
                 ok = before.op == "const" and before.name == 0 and after.op != "const"
         col.check(ok, R, ig, "checkpointing: externals are padded with zeros AFTER the samples", "stimulus first, zeros last",
                   f"padding is {detail}: zeros in front delay the stimulus by prod(checkpoint_lengths) - n steps", node=s.node)
+        # the pad of an entry has the number of columns of THAT entry (the entries have one column per stimulated / clamped site,
+        # and different keys have different numbers of sites)
+        if v.op == "mcall" and v.name == "concatenate" and v.args[1].op in ("list", "tuple") and len(v.args[1].args) == 2:
+            first, second = v.args[1].args
+            z = T.find(second, lambda x: x.op == "mcall" and x.name == "zeros")
+            shp = z.args[1] if (z is not None and len(z.args) > 1) else None
+            if shp is not None and shp.op == "tuple" and len(shp.args) == 2:
+                cols_ = shp.args[1]
+                src = cols_.args[0].args[0] if (cols_.op == "sub" and cols_.args[0].op == "attr" and cols_.args[0].name == "shape") else None
+                same = src is not None and src.key() == first.key()
+                col.add(R, ig, "checkpointing: the pad of an entry has that entry's number of columns",
+                        "DISCHARGED" if same else ("VIOLATED" if src is not None else "UNDECIDED"),
+                        "zeros((missing, externals[key].shape[1]))" if same else
+                        f"the pad appended to `{first.short(40)}` takes its number of columns from `{src.short(60) if src is not None else cols_.short(60)}`: "
+                        f"with a stimulus on two compartments and a clamp on one, `integrate(..., checkpoint_lengths=...)` fails with a shape "
+                        f"error (or, were the counts to agree by chance, is fine) while the same call without checkpointing succeeds",
+                        node=s.node)
